@@ -20,6 +20,9 @@ import (
 	"github.com/rpcpool/yellowstone-faithful/indexmeta"
 )
 
+// maxKeySize is the largest key length the 16-bit length prefix of a temporary bucket tuple can hold.
+const maxKeySize = 1<<16 - 1
+
 // Builder creates new compactindex files.
 type Builder struct {
 	Header     Header
@@ -124,6 +127,9 @@ func (b *Builder) getValueSize() int {
 // Index generation will fail if the same key is inserted twice.
 // The writer must not pass a value greater than targetFileSize.
 func (b *Builder) Insert(key []byte, value []byte) error {
+	if len(key) > maxKeySize {
+		return fmt.Errorf("key too long: %d bytes (max %d)", len(key), maxKeySize)
+	}
 	return b.buckets[b.Header.BucketHash(key)].writeTuple(key, value)
 }
 
